@@ -11,6 +11,7 @@ and tail returns never change a result.  The proof maintains an invariant relati
 object to its tree (`Inv`: memo cells hold by-name values; requestor links connect expressions of equal value).
 -/
 import UH.Proofs.ByName
+import UH.Proofs.ByNameEval
 import UH.Properties.NatSem
 namespace UH.ByNameP
 open UH BigStep ByName
@@ -113,5 +114,18 @@ unboundedly long evaluations, each with its memo cells, requestor chains and tai
 theorem evaluator_countdown (n : Nat) (w : World) :
     ∃ (h : Nat) (s' : Store), Eval (alloc initStore (NatSemP.countdown n) ⟨[], []⟩) w (.frame initStore.cells.size) h
         (.ok (.arg (.strict (.int 0)))) s' w := by_name_program _ _ w (bn_countdown n)
+
+/-! ### the executable reference evaluator -/
+
+/-- whatever the executable by-name evaluator (`Model/ByNameEval.lean`, driver command `bn`) returns is a value of the
+reference semantics -/
+theorem reference_evaluator_sound (fuel : Nat) (ρ : TEnv) (e : AST) (v : TVal) (h : bnEval fuel ρ e = some v) : BN ρ e v :=
+  bnEval_sound fuel ρ e v h
+
+/-- … hence, for a closed program, the value the evaluator computes -/
+theorem reference_evaluator_program (fuel : Nat) (e : AST) (n : Int) (w : World)
+    (h : bnEval fuel (.mk [] []) e = some (.int n)) :
+    ∃ (hh : Nat) (s' : Store), Eval (alloc initStore e ⟨[], []⟩) w (.frame initStore.cells.size) hh
+        (.ok (.arg (.strict (.int n)))) s' w := bnEval_program fuel e n w h
 
 end UH.ByNameP
